@@ -524,6 +524,8 @@ def check(ctx):
                           'during a hand-over to move no part (a synchronous hand-over from a notification re-enters the sender while its slot is still full: parts are duplicated or dropped)'))
     obs.append(ctx.shared('c05', 'C05.3', 'C02.13', 'the buffer stores parts in a list, outside the slot model of C02.4: a stored part is neither lost nor delivered twice only if '
                           'the item offered downstream is the head and the item removed after a True answer is that same head'))
+    obs.append(ctx.shared('c17', 'C17.11', 'C02.14', 'a part inside a batch is in exactly one place only if the list of the batch is not extended through another name: a query that '
+                          'binds the live list and appends what else the device holds puts those parts into the batch as well -- they then leave twice'))
     obs.append(dv.falsy_default_obligation(ctx, 'C02.12', ['Source', 'PartGenerator', 'Part', 'Batch'], 'the part budget of a source is the number it was given'))
     return obs
 
